@@ -179,6 +179,12 @@ def run(tier):
             items.append((origin, toks))
     for name, toks in corpus.small_corpus_tokens(130 if quick else 900):
         items.append((f"K:{name}", toks))
+    # token sequences given as such (the pool's texts are split with the lexer
+    # under test, which cannot show a lexer that rewrites the text first):
+    # tokens that contain raw tabs, form feeds are not used (not white space here)
+    items.append(("T:tabs", ["char", "*", "s", "=", '"a\tb\t"', ";", "char", "c", "=", "'\t'", ";",
+                             "#pragma x\ty\t\n", "int", "z", "=", "L'\t'", "+", 'sizeof', "(", '"\t"', ")", ";"]))
+    items.append(("T:blanks", ["char", "*", "s", "=", '"a  b   "', '" "', ";", "#pragma  p   q  \n", "int", "z", ";"]))
     # de-duplicate by token sequence, smallest first
     seen = set()
     uniq = []
